@@ -157,7 +157,11 @@ def gen_one(world, tier, rng, faults=True):
         'set:z', 'fiddler:fid_scale(*[1])'])
     pos = frng.randrange(len(steps))
     steps.insert(pos + 1, {'op': 'parse', 'ds': [bad], 'bad': True})
-    steps.insert(pos + 2, {'op': 'read'})
+    if frng.random() < 0.5:
+      steps.insert(pos + 2, {'op': 'read'})
+    # (else the failing directive waits in one batch with whatever is parsed
+    # next); either way the flag is read again after the failure was reported
+    steps.append({'op': 'read'})
   elif frng.random() < 0.1:
     # misplaced: an override before any base config
     steps.insert(0, {'op': 'parse', 'ds': ['set:z=1'], 'bad': True})
@@ -460,8 +464,19 @@ def run(case):
         viols.append(V('invalid-directive-accepted',
                        f'step #{idx}: directive {bad[0][1]!r} was accepted',
                        directive=bad[0][1].split(':')[0]))
+        res['nontrivial'] = applied >= 2
+        return res
+      # The failing directive was reported.  A later read may fail again, but a
+      # value that IS returned reflects every other directive, in order.
+      k = queue.index(bad[0])
+      applied += k
+      del queue[:k + 1]
+      fs.failed = True
+      bump(probes, 'reads_after_reported_failure_pending')
+      continue
+    if err is not None and getattr(fs, 'failed', False):
       res['nontrivial'] = applied >= 2
-      return res   # post-failure state is unspecified: the run ends here
+      return res   # failing again after a reported failure: loud, unspecified
     if err is not None:
       viols.append(V('valid-directives-raised',
                      f'step #{idx}: reading .value after {queue} raised '
